@@ -134,7 +134,7 @@ def ringLine (line : String) : String :=
           let onlModel := RayCount.isOnLine p ring
           let extra := if model == spec && onl == onlModel then "" else s!" MODEL-DIFFERS-FROM-SPEC:{locTok model}:{onlModel}"
           let s := locTok spec
-          let base := s!"{s} {s} {if onl then 1 else 0}"
+          let base := s!"{s} {s} {if onl then 1 else 0} {if spec == .exterior then 0 else 1}"
           (if simple == "1" then base ++ s!" {s} {s} {if spec == .exterior then 0 else 1}" else base) ++ extra
         | [] => "bad-line"
     | _, _ => "bad-line"
